@@ -64,6 +64,8 @@ def classify(c, r, version=''):
             return None
     if kind == 'raised' and exc.get('type') == 'UnstableMinification' and str(version).startswith('2.') and re.search(r'(^|\n)\s*exec\b', src):
         return 'C02.py2.exec_operand_parentheses'
+    if kind == 'raised' and exc.get('type') == 'UnstableMinification' and str(version).startswith('2.') and re.search(r'\*\*\s*\(\s*\(', src):
+        return 'C02.py2.call_kwargs_parentheses'
     if kind == 'raised' and exc.get('type') == 'UnicodeDecodeError' and '_find_shebang' in exc.get('site', ''):
         return 'C16.shebang.non_utf8_bytes'
     return None
